@@ -92,6 +92,55 @@ def history_preds(ops_upto):
     return P
 
 
+def batch_preds(ops_upto, cfg):
+    """C12: which batches the history makes the persistence layer write.  A shard's buffer is
+    written as one batch when it reaches buffer_size or at save / compact / restart; a batch file
+    types each column after the batch's first row; compaction rewrites the whole shard as one
+    batch after sorting it.  The predicates name the batch shapes the known findings are about."""
+    P = set()
+    bs = int(cfg.get("buffer_size", 10000))
+    buf = {}      # shard -> rows waiting in the buffer
+    disk = {}     # shard -> rows in batch files
+
+    def kinds_by_col(rows):
+        cols = {}
+        for r in rows:
+            for i, v in enumerate(r):
+                cols.setdefault(i, []).append(v[0])
+        return cols
+
+    def flush(key):
+        rows = buf.get(key, [])
+        if not rows:
+            return
+        for ks in kinds_by_col(rows).values():
+            if ks[0] == "n":
+                P.add("batch.column_starts_with_null")
+            if ks[0] in ("v", "v8") and "n" in ks:
+                P.add("batch.null_in_vector_column")
+            if len({k for k in ks if k != "n"}) > 1:
+                P.add("batch.two_nonnull_kinds")
+        disk.setdefault(key, []).extend(rows)
+        buf[key] = []
+
+    for op in ops_upto:
+        k = op["k"]
+        key = (op.get("kg"), op.get("rel"))
+        if k in ("ins", "del"):
+            buf.setdefault(key, []).extend(op["tuples"])
+            if len(buf[key]) >= bs:
+                flush(key)
+        elif k in ("save", "save_all", "restart", "restart_nosave", "compact"):
+            for key2 in list(buf):
+                flush(key2)
+            if k == "compact":
+                for rows in disk.values():
+                    for ks in kinds_by_col(rows).values():
+                        if len(set(ks)) > 1:
+                            P.add("compact.column_kinds_differ")
+    return P
+
+
 def run(prop, replay=None):
     t = vlib.tier()
     rep = vlib.Report(prop)
@@ -178,6 +227,8 @@ def run(prop, replay=None):
             if c["cfg"]["max_wal"]:
                 preds.add("cfg.max_wal_small")
             preds.add("tag." + tag)
+            if prop == "C12":
+                preds |= batch_preds(upto, c["cfg"])
             rejected_cases[cid] = ({"ops": upto, "cfg": c["cfg"], "observed": c["recs"][step - 1]["state"],
                                     "before": (c["recs"][step - 2]["state"] if step > 1 else None)}, info, preds)
     for cid, (case, info, preds) in sorted(rejected_cases.items()):
